@@ -427,6 +427,8 @@ def emission_case_s():
         "sn0": st.sampled_from([0, 65533, 65534, 32766]) | st.integers(0, 65534),
         "rhl": st.integers(2, 255),
         "fsn": U16,
+        # forwarded GUC / LS reply whose destination is a neighbour: how the DE PV in the packet relates to the location-table PV
+        "de_rel": st.sampled_from([None, None, "older", "equal", "newer", "older_across_wrap", "newer_across_wrap"]),
     })
 
 
@@ -457,7 +459,9 @@ def run_emission_case(case0):
     case = _fix_case(case0)
     t = case["transport"]
     labels = ["emit:" + t]
-    clock = VClock(1_700_000_000.0)
+    from ..vclock import utc_before_wrap
+    de_rel = case.get("de_rel") if t in ("fwd_guc", "fwd_lsrep") else None
+    clock = VClock(utc_before_wrap(50) if (de_rel or "").endswith("across_wrap") else 1_700_000_000.0)
     clock.install([gr, ltm])
     try:
         ego, peer, third = case["ego"], case["peer"], case["third"]
@@ -537,6 +541,19 @@ def run_emission_case(case0):
                     else:
                         kw["area"] = {"lat": far["lat"], "lon": far["lon"], "a": 10, "b": 10, "angle": case["angle"], "shape": case["shape"]}
                         kw["so"] = dict(kw["so"], pai=0)
+                elif kind in ("guc", "lsrep") and de_rel:
+                    # the destination is a neighbour (its beacon was received): EN 302 636-4-1 C.3 - the forwarder puts its own, strictly
+                    # newer (modulo 2^32) PV of the destination into the packet, and leaves the packet's PV alone otherwise
+                    if de_rel == "older_across_wrap":
+                        clock.advance(0.1)
+                    t_loc = tst32(clock.now)
+                    st_.receive(rc.build_packet("beacon", so=_so(dict(peer, tst=t_loc))))
+                    n_before = len(st_.ll.sent)
+                    if de_rel == "newer_across_wrap":
+                        clock.advance(0.1)
+                    t_de = {"older": t_loc - 1000, "equal": t_loc, "newer": t_loc + 1000, "older_across_wrap": (1 << 32) - 200, "newer_across_wrap": 20}[de_rel] % (1 << 32)
+                    kw["de"] = {"addr": r_addr(peer["addr"]), "tst": t_de, "lat": far["lat"], "lon": far["lon"]}
+                    labels.append("fwd-de-neighbour:" + de_rel)
                 elif kind in ("guc", "lsrep"):
                     kw["de"] = {"addr": r_addr({"m": 0, "st": 5, "mid": "0200000000fe"}), "tst": case["fsn"], "lat": far["lat"], "lon": far["lon"]}
                 elif kind == "lsreq":
@@ -546,6 +563,8 @@ def run_emission_case(case0):
                 pkt = rc.build_packet(kind, **kw)
                 st_.receive(pkt)
                 expected = pkt[:3] + bytes([case["rhl"] - 1]) + pkt[4:]
+                if kind in ("guc", "lsrep") and de_rel in ("older", "older_across_wrap"):
+                    expected = expected[:40] + rc.build_spv(r_addr(peer["addr"]), t_loc, peer["lat"], peer["lon"]) + expected[60:]
         except Exception as e:
             vs.append(violation(ID, "C02/emission-raises:%s:%s" % (t, type(e).__name__), "%s raised %r" % (t, e)))
             return Outcome(vs, labels=labels, nontrivial=_nontrivial_fields(case))
